@@ -116,7 +116,7 @@ mut("cpu-list-not-reset", "io/amr.py", "        self.cpu_list = None\n        if
 mut("hilbert-table-entry", "io/hilbert.py", "            1,\n            2,\n            3,\n", "            1,\n            3,\n            2,\n", ["C04"])
 mut("cube-corner-missing", "io/hilbert.py", "jdom = [jmin, jmin, jmax, jmax] * 2", "jdom = [jmin, jmin, jmax, jmin] * 2", ["C04"])
 mut("interval-open", "io/hilbert.py", "if (bound_key[impi] <= bounding_min[i]) and (", "if (bound_key[impi] < bounding_min[i]) and (", ["C04"])
-mut("bbox-no-half-cell", "io/hilbert.py", "end = xyz_centers[inds.max()] + (half_dxmin * scaling.units)", "end = xyz_centers[inds.max()]", ["C04"])
+mut("bbox-no-half-cell", "io/hilbert.py", "end = xyz_centers[inds.max()] + (padding * scaling.units)", "end = xyz_centers[inds.max()]", ["C04"])
 mut("sink-skiprows", "io/sink.py", "skiprows=2", "skiprows=1", ["C14"])
 mut("sink-no-2d", "io/sink.py", "np.atleast_2d(np.loadtxt(sink_file, delimiter=\",\", skiprows=2))", "np.loadtxt(sink_file, delimiter=\",\", skiprows=2)", ["C14"])
 mut("sink-m-is-length", "io/sink.py", 'm = units["mass"]', 'm = units["length"]', ["C14"])
@@ -148,6 +148,7 @@ mut("map-vmin-forward", "plot/map.py", "            vmin=vmin,\n            vmax
 mut("render-pops-caller", "plot/histogram2d.py", "                \"params\": layer.kwargs,", "                \"params\": kwargs,", ["C19"])
 mut("direction-y-axes", "plot/direction.py", 'VectorBasis(n=dir_list["y"], u=dir_list["z"], v=dir_list["x"])', 'VectorBasis(n=dir_list["y"], u=dir_list["x"], v=dir_list["z"])', ["C18"])
 mut("direction-any-length-axis-word", "plot/direction.py", 'if len(direction) == 3 and set(direction) == set("xyz"):', 'if set(direction) == set("xyz"):', ["C18"])   # fix F15 reverted
+mut("hilbert-box-stops-at-probe-cell", "io/hilbert.py", "padding = half_dxmin if probe_level == meta[\"levelmax\"] else 2 * half_dxmin", "padding = half_dxmin", ["C04"])   # fix F16 reverted
 mut("direction-repeated-letters", "plot/direction.py", 'if len(direction) == 3 and set(direction) == set("xyz"):', 'if len(direction) == 3 and set(direction) <= set("xyz"):', ["C18"])
 mut("direction-top-vel-cross-pos", "plot/direction.py", "ang_mom = np.sum(weighted_pos.cross(vel))", "ang_mom = np.sum(vel.cross(weighted_pos))", ["C18"])
 mut("sphere-inclusive", "spatial/subdomain.py", "c = (r < radius).values", "c = (r <= radius).values", ["C16"])
